@@ -187,8 +187,10 @@ def run(ctx):
             rule = [trace[k]["verb"], trace[k]["path"], l4.occurrence_index(trace, k), "crash"]
             info[cid] = (b, ids, dry, [rule], "crash", trace, k)
             cases2.append({"id": cid, "steps": b["steps"] + [{"op": "delete", "bands": ids, "plan": {"rules": [rule]}}] + after_steps(b["nb"])})
-            if trace[k]["verb"] in ("Read", "ListDir", "Metadata") and (not quick or k % 2 == 0):
-                kind = ctx.rng.choice(["NotFound", "PermissionDenied", "Other", "AlreadyExists"])
+            hunk_read = trace[k]["verb"] == "Read" and "/i/" in str(trace[k]["path"])
+            if trace[k]["verb"] in ("Read", "ListDir", "Metadata") and (not quick or k % 2 == 0 or hunk_read):
+                # an index hunk that cannot be found while the delete reads it must stop the delete, not end that version's scan
+                kind = "NotFound" if hunk_read else ctx.rng.choice(["NotFound", "PermissionDenied", "Other", "AlreadyExists"])
                 cid = f"{c['id']}_fail{k}"
                 rule = [trace[k]["verb"], trace[k]["path"], l4.occurrence_index(trace, k), kind]
                 info[cid] = (b, ids, dry, [rule], "fault", trace, k)
